@@ -97,9 +97,9 @@ def main():
                     rc, out2 = sh(f"./target/release/posim-threads check --tier quick --out {SCR}/out", cwd=f"{SCR}/verif/threads")
                     hit = rc == 1
                     out += out2
-                if not hit and prop == "C07":
+                if not hit and prop in ("C07", "C05"):
                     sh("cargo build --release --offline", cwd=f"{SCR}/verif/threads")
-                    rc, out2 = sh(f"./target/release/posim-threads check --prop C07 --tier quick --out {SCR}/out", cwd=f"{SCR}/verif/threads")
+                    rc, out2 = sh(f"./target/release/posim-threads check --prop {prop} --tier quick --out {SCR}/out", cwd=f"{SCR}/verif/threads")
                     hit = rc == 1
                     out += out2
                 if rc == 2:
